@@ -83,8 +83,10 @@ const (
 	undefinedExt  = "c16-undefined-ext"
 	otherStamp    = "c16-other"
 	defaultReason = "C16 reason"
-	setCode       = "C16-0001"
 )
+
+// codes tried when a source without code is given one (PT SAF-T wants "<doc type> <series>/<number>")
+var setCodes = []string{"C16-0001", "FT C16/1", "NC C16/1", "ND C16/1", "FS C16/1", "FR C16/1", "PF C16/1"}
 
 // ---------------------------------------------------------------------------
 // published definitions
@@ -384,15 +386,21 @@ func docMap(env *gobl.Envelope) (map[string]any, error) {
 
 // buildSource builds the source envelope of a case: calculated, valid, signed
 // and stamped as requested. status != "" means the case is outside the domain.
-func buildSource(c Case) (env *gobl.Envelope, status string) {
+func buildSource(c Case) (*gobl.Envelope, string) {
 	loadCorpus()
 	di := corpBy[c.Path]
 	if di == nil {
 		return nil, "unknown-path"
 	}
-	js := di.doc.JSON
-	if c.Code != "" {
-		v, err := jsontree.Decode(js)
+	var env *gobl.Envelope
+	switch c.Code {
+	case "":
+		var err error
+		if env, err = corpus.EnvelopeOf(di.doc.JSON, di.doc.IsEnv); err != nil {
+			return nil, "source-does-not-calculate"
+		}
+	case "strip", "set":
+		v, err := jsontree.Decode(di.doc.JSON)
 		if err != nil {
 			return nil, "source-unreadable"
 		}
@@ -404,19 +412,31 @@ func buildSource(c Case) (env *gobl.Envelope, status string) {
 		if doc == nil {
 			return nil, "source-unreadable"
 		}
-		switch c.Code {
-		case "strip":
-			delete(doc, "code")
-		case "set":
-			doc["code"] = setCode
-		default:
-			return nil, "bad-case"
+		cands := []string{""}
+		if c.Code == "set" {
+			cands = setCodes // the first one the regime / addons accept
 		}
-		js = jsontree.Encode(root)
-	}
-	env, err := corpus.EnvelopeOf(js, di.doc.IsEnv)
-	if err != nil {
-		return nil, "source-does-not-calculate"
+		for _, code := range cands {
+			if code == "" {
+				delete(doc, "code")
+			} else {
+				doc["code"] = code
+			}
+			e, err := corpus.EnvelopeOf(jsontree.Encode(root), di.doc.IsEnv)
+			if err != nil {
+				continue
+			}
+			e.Signatures, e.Head.Stamps = nil, nil
+			if e.Validate() == nil {
+				env = e
+				break
+			}
+		}
+		if env == nil {
+			return nil, "source-invalid"
+		}
+	default:
+		return nil, "bad-case"
 	}
 	env.Signatures = nil
 	env.Head.Stamps = nil
@@ -1566,17 +1586,22 @@ func judge(c Case, o *vh.Obs) {
 			o.Failf("correct:preceding.reason", "%s: preceding[0].reason = %q", where, r)
 			return
 		}
-		wantExt := map[string]any{}
-		for k, v := range c.Opts.Ext {
-			wantExt[k] = v
-		}
+		// requested extensions: in the preceding row or, "according to the local
+		// rules" (CorrectionOptions.Ext), moved to the document level
 		gotExt := obj(pre, "ext")
-		if gotExt == nil {
-			gotExt = map[string]any{}
+		docExt := obj(obj(resDoc, "tax"), "ext")
+		for _, k := range vh.SortedKeys(c.Opts.Ext) {
+			v := c.Opts.Ext[k]
+			if str(gotExt, k) != v && str(docExt, k) != v {
+				o.Failf("correct:requested-ext-lost", "%s: requested ext %s=%s is neither in preceding[0].ext (%s) nor in tax.ext (%s)", where, k, v, short(pre["ext"]), short(docExt))
+				return
+			}
 		}
-		if !jsontree.Equal(gotExt, wantExt) {
-			o.Failf("correct:preceding.ext", "%s: preceding[0].ext = %s", where, short(pre["ext"]))
-			return
+		for _, k := range vh.SortedKeys(gotExt) {
+			if _, ok := c.Opts.Ext[k]; !ok {
+				o.Failf("correct:preceding.ext-unrequested", "%s: preceding[0].ext carries %s which was not requested", where, k)
+				return
+			}
 		}
 		var wantStamps []any
 		eff := effectiveStamps(c)
@@ -1761,8 +1786,12 @@ func vectors(di *docInfo) []vector {
 	p := loadPub()
 	def := di.def
 	req := dedup(def.Stamps)
+	giveCode := ""
+	if di.code == "" {
+		giveCode = "set" // examples without a code are given one, except in the vector that tests its absence
+	}
 	base := func(t string) vector {
-		return vector{opts: Opts{Type: t, Reason: defaultReason}, headStamps: req, sign: len(req) > 0}
+		return vector{opts: Opts{Type: t, Reason: defaultReason}, headStamps: req, sign: len(req) > 0, code: giveCode}
 	}
 	var out []vector
 	for _, t := range append(append([]string{}, p.types...), "", undefinedType) {
@@ -1854,8 +1883,9 @@ func vectors(di *docInfo) []vector {
 		if di.code != "" {
 			v.code = "strip"
 		} else {
-			v.code = "set"
+			v.code = ""
 		}
+		v.headStamps, v.sign = nil, false // cannot be signed
 		out = append(out, v)
 	}
 	return out
@@ -1920,9 +1950,10 @@ func enumSweep(yield func(Case) bool) {
 			if vh.Thorough() {
 				cbs = correctCombos
 			} else {
-				cbs = []combo{correctCombos[(di+vi)%len(correctCombos)]}
-				if cbs[0].entry != "lib" && vi%3 == 0 {
-					cbs = append(cbs, correctCombos[vi%3])
+				// one library route and two of the command line routes per vector
+				cbs = []combo{correctCombos[(di+vi)%3], correctCombos[3+(di+vi)%4], correctCombos[3+(di+vi+1+vi%3)%4]}
+				if cbs[1] == cbs[2] {
+					cbs = cbs[:2]
 				}
 			}
 			for _, cb := range cbs {
@@ -1952,6 +1983,9 @@ func enumSweep(yield func(Case) bool) {
 					continue
 				}
 				c := Case{Path: d.doc.Path, Op: "replicate", Entry: e, Sign: sv.sign, HeadStamps: sv.stamps}
+				if d.code == "" && sv.sign {
+					c.Code = "set"
+				}
 				if e == "lib" {
 					c.Edits = allEdits
 				}
@@ -2046,13 +2080,16 @@ func genCase(t *rapid.T) Case {
 	if rapid.IntRange(0, 3).Draw(t, "other_stamp") == 0 {
 		c.HeadStamps = append(c.HeadStamps, otherStamp)
 	}
-	c.Sign = len(c.HeadStamps) > 0 || rapid.Bool().Draw(t, "sign")
 	switch n := rapid.IntRange(0, 19).Draw(t, "code"); {
 	case n == 0 && di.code != "":
 		c.Code = "strip"
-	case n < 6 && di.code == "":
+	case n < 12 && di.code == "":
 		c.Code = "set"
 	}
+	if (di.code == "" && c.Code != "set") || c.Code == "strip" {
+		c.HeadStamps = nil // an envelope without a code cannot be signed, hence not stamped
+	}
+	c.Sign = len(c.HeadStamps) > 0 || (rapid.Bool().Draw(t, "sign") && (di.code != "" || c.Code == "set") && c.Code != "strip")
 	if c.Entry == "cli-doc" {
 		if rapid.Bool().Draw(t, "stamps_in_opts") {
 			c.Opts.Stamps = stampsOf(without(c.HeadStamps, otherStamp))
@@ -2143,5 +2180,5 @@ func init() {
 	)
 	vh.Enum("sweep", enumSweep, judge)
 	vh.Enum("exec", enumExec, judge)
-	vh.Rapid("random", 2_500, 120_000, genCase, judge)
+	vh.Rapid("random", 6_000, 400_000, genCase, judge)
 }
